@@ -62,6 +62,8 @@ def run(harnesses, timeout_each=1500):
             groups.setdefault((h.get('tests', False), h.get('features', '')), []).append(h)
         for (is_tests, feats), hs in groups.items():
             cmd = ['cargo', 'kani', '--output-format', 'terse']
+            if len(hs) > 1:
+                cmd += ['-j', str(min(len(hs), int(os.environ.get('GV_KANI_JOBS', '4'))))]
             if feats:
                 cmd += ['--features', feats]
             if is_tests:
@@ -74,19 +76,45 @@ def run(harnesses, timeout_each=1500):
                 out = p.stdout.decode('utf-8', 'replace')
             except subprocess.TimeoutExpired as e:
                 out = (e.stdout or b'').decode('utf-8', 'replace') + '\nTIMEOUT'
-            blocks = re.split(r'(?m)^Checking harness ', out)
+            # parallel runs (-j) prefix lines with "Thread N:"; the result block that follows "Thread N: " belongs to the harness
+            # that thread announced last
+            cur = {}
+            pending = None
             seen = {}
-            for b in blocks[1:]:
-                name = b.split('...', 1)[0].strip()
-                short = name.split('::')[-1]
-                status = 'UNKNOWN'
-                m = re.search(r'VERIFICATION:- (\w+)', b)
+            failed_names = set(x.split('::')[-1] for x in re.findall(r'Verification failed for - (\S+)', out))
+            complete = re.search(r'Complete - (\d+) successfully verified harnesses, (\d+) failures, (\d+) total', out)
+            for line in out.split('\n'):
+                m = re.match(r'^(?:Thread (\d+): )?Checking harness (\S+?)\.\.\.', line)
                 if m:
-                    status = m.group(1)
-                tm = re.search(r'Verification Time: ([\d.]+)s', b)
-                failed = re.findall(r'Failed Checks: (.*)', b)
-                seen[short] = {'status': status, 'time_s': float(tm.group(1)) if tm else None, 'failed_checks': failed[:10],
-                               'output_tail': b[-1500:] if status != 'SUCCESSFUL' else ''}
+                    t = m.group(1) or '0'
+                    short = m.group(2).split('::')[-1]
+                    cur[t] = short
+                    seen[short] = {'status': 'UNKNOWN', 'time_s': None, 'failed_checks': [], 'output_tail': ''}
+                    pending = t
+                    continue
+                m = re.match(r'^Thread (\d+): \s*$', line)
+                if m:
+                    pending = m.group(1)
+                    continue
+                name = cur.get(pending)
+                if name is None:
+                    continue
+                m = re.match(r'^VERIFICATION:- (\w+)', line)
+                if m:
+                    seen[name]['status'] = m.group(1)
+                m = re.match(r'^Verification Time: ([\d.]+)s', line)
+                if m:
+                    seen[name]['time_s'] = float(m.group(1))
+                m = re.match(r'^Failed Checks: (.*)', line)
+                if m and len(seen[name]['failed_checks']) < 10:
+                    seen[name]['failed_checks'].append(m.group(1))
+            for nm, r in seen.items():
+                if nm in failed_names:
+                    r['status'] = 'FAILED'
+                if r['status'] == 'FAILED':
+                    r['output_tail'] = out[-2500:]
+                if r['status'] == 'UNKNOWN' and complete and nm not in failed_names:
+                    r['status'] = 'SUCCESSFUL'
             for h in hs:
                 r = seen.get(h['name'])
                 if r is None:
